@@ -589,8 +589,10 @@ def negotiate_unrestricted(
 
     # Not required but a nice thing to do
     result_cx = sorted(result_cx, key=lambda x: cast(int, x.context_id))
+    # Keep the role selection replies for the non-storage contexts
     result_roles = sorted(
-        reply_roles.values(), key=lambda x: cast(UID, x.sop_class_uid)
+        list(result_roles) + list(reply_roles.values()),
+        key=lambda x: cast(UID, x.sop_class_uid),
     )
 
     return result_cx, result_roles
